@@ -207,6 +207,8 @@ def run(chk, tier):
     # "never ... panics": the estimate computed at the top of every iteration divides by the timing window's length (C19)
     from rules import c19
     c19.window(chk, prog)
+    # "never hangs": how long an iteration sleeps is the estimate's value, so its decision tree (C19) is an obligation here too
+    c19.estimate(chk, prog)
 
 
 def first_delivery(chk, prog, fn, lp, names, site, tx):
